@@ -17,17 +17,22 @@ Import ListNotations.
 
 Definition name := nat.
 
-(* Values that flow through a pipeline: an int (bools count as ints, as for isinstance), an object that
+(* Values that flow through a pipeline: an int, a bool (VBool 0 / VBool 1: an int for isinstance, but a
+   different object than the int that is == to it -- a component can tell them apart), an object that
    is neither an int nor an array (VStr: a str -- including one spelled like a node name or alias --, a
-   float, a list, a dict; the number only tells them apart), a float64 array, an int64 array. *)
-Inductive val := VInt (z : Z) | VStr (z : Z) | VArrF (z : Z) | VArrI (z : Z).
-Definition is_int (v : val) : bool := match v with VInt _ => true | _ => false end.
+   float, a list, a dict, a tuple, a NumPy scalar, ...; the number only tells them apart, in particular 1.0
+   and np.int64(1) are VStr values other than VInt 1), a float64 array, an int64 array. *)
+Inductive val := VInt (z : Z) | VStr (z : Z) | VArrF (z : Z) | VArrI (z : Z) | VBool (z : Z).
+Definition is_int (v : val) : bool := match v with VInt _ | VBool _ => true | _ => false end.
 (* what a (non-None part of a) parameter annotation accepts: int, np.ndarray[Any, np.dtype[np.float64]],
-   np.ndarray[Any, np.dtype[np.int64]] -- the last two depend on the dtype of the value, not on its class *)
-Inductive tykind := TInt | TFloatVec | TIntVec.
+   np.ndarray[Any, np.dtype[np.int64]] -- the last two depend on the dtype of the value, not on its class --,
+   bool (an int that is not a bool is refused) *)
+Inductive tykind := TInt | TFloatVec | TIntVec | TBool.
 Definition accepts (t : tykind) (v : val) : bool :=
   match t, v with
   | TInt, VInt _ => true
+  | TInt, VBool _ => true
+  | TBool, VBool _ => true
   | TFloatVec, VArrF _ => true
   | TIntVec, VArrI _ => true
   | _, _ => false
@@ -430,7 +435,20 @@ Definition build (b : builder) : option graph :=
    parameter name; connect(comp, name=node) sets/overrides an explicit connection; alias(a, node) *)
 Inductive edit :=
 | EDefault (pname : nat) (t : name) | EConnect (c : name) (pname : nat) (t : name) | EAlias (a t : name)
-| EAddLit (n : name) (v : bnode).       (* connect(c, p=<a value that is not a node>) first creates a literal node *)
+| EAddLit (n : name) (v : bnode)        (* connect(c, p=<a value that is not a node>) first creates a literal node *)
+| EClear (c : name)                     (* clear_inputs(c): no explicit connection left (defaults apply again) *)
+| EReplace (c : name) (ps : list bparam) (body : list (option val) -> prog).
+                                        (* replace_component(c, comp, **inputs): the new component's parameters keep the
+                                           explicit connections of the old one unless [inputs] (bp_conn = Some) overrides *)
+Definition with_conn (p : bparam) (c : option name) : bparam :=
+  {| bp_name := bp_name p; bp_conn := c; bp_lazy := bp_lazy p; bp_typed := bp_typed p;
+     bp_nullable := bp_nullable p; bp_ty := bp_ty p |}.
+Definition old_conn (old : list bparam) (pname : nat) : option name :=
+  match find (fun q => Nat.eqb (bp_name q) pname) old with Some q => bp_conn q | None => None end.
+Definition keep_conn (old : list bparam) (p : bparam) : bparam :=
+  match bp_conn p with Some _ => p | None => with_conn p (old_conn old (bp_name p)) end.
+Definition edit_node (c : name) (f : bnode -> bnode) (b_nodes : list (name * bnode)) : list (name * bnode) :=
+  map (fun nn => if Nat.eqb (fst nn) c then (fst nn, f (snd nn)) else nn) b_nodes.
 Definition set_conn (pname : nat) (t : name) (p : bparam) : bparam :=
   if Nat.eqb (bp_name p) pname
   then {| bp_name := bp_name p; bp_conn := Some t; bp_lazy := bp_lazy p; bp_typed := bp_typed p;
@@ -451,6 +469,16 @@ Definition apply_edit (b : builder) (e : edit) : builder :=
          b_defaults := b_defaults b; b_aliases := b_aliases b |}
   | EAlias a t => {| b_nodes := b_nodes b; b_defaults := b_defaults b; b_aliases := (a, t) :: b_aliases b |}
   | EAddLit n v => {| b_nodes := b_nodes b ++ [(n, v)]; b_defaults := b_defaults b; b_aliases := b_aliases b |}
+  | EClear c =>
+      {| b_nodes := edit_node c (fun nd => match nd with
+                                           | BComp ps body => BComp (map (fun p => with_conn p None) ps) body
+                                           | x => x end) (b_nodes b);
+         b_defaults := b_defaults b; b_aliases := b_aliases b |}
+  | EReplace c ps body =>
+      {| b_nodes := edit_node c (fun nd => match nd with
+                                           | BComp old _ => BComp (map (keep_conn old) ps) body
+                                           | x => x end) (b_nodes b);
+         b_defaults := b_defaults b; b_aliases := b_aliases b |}
   end.
 
 (* Pipeline.node(name): aliases first *)
@@ -485,6 +513,7 @@ Definition num (v : option val) : Z :=
   match v with
   | None => (-1)%Z | Some (VInt z) => z | Some (VStr z) => (1000003 + z)%Z
   | Some (VArrF z) => (2000003 + z)%Z | Some (VArrI z) => (3000003 + z)%Z
+  | Some (VBool z) => (4000003 + z)%Z      (* the bodies tell True from 1 *)
   end.
 Definition eval_bexp (args : list (option val)) (forced : list (nat * option val)) (e : bexp) : option val :=
   match e with
@@ -519,7 +548,7 @@ Definition fallback_params (primary fallback : name) : list param :=
 
 Definition val_eqb (a b : val) : bool :=
   match a, b with
-  | VInt x, VInt y | VStr x, VStr y | VArrF x, VArrF y | VArrI x, VArrI y => Z.eqb x y
+  | VInt x, VInt y | VStr x, VStr y | VArrF x, VArrF y | VArrI x, VArrI y | VBool x, VBool y => Z.eqb x y
   | _, _ => false
   end.
 Definition oval_eqb (a b : option val) : bool :=
